@@ -338,6 +338,7 @@ def job_condition_step(ctx, jr, N, atom_cap):
             back = None
         else:
             fr = induct.capture(e, 'sdk', 'utils::condition::eval_condition_for_slice', [argv], State(True, {}))
+            fr.require(['searching_block_end', 'start_block', 'counter', 'index', 'total_evaluated', 'partial_evaluated', 'found_token', 'iter'])
             it0 = fr.get(fr.st, 'iter'); ft0 = fr.get(fr.st, 'found_token')
             p = e.fresh_int('p', 0, N); e.assume(p <= count)
             ph = e.fresh_int('outer', 0, 3)          # FoundToken of the enclosing level: None / And / Or / Value
